@@ -131,7 +131,11 @@ type Operator[V any] struct {
 	// This is usually the case, there are only special corner cases where it is not.
 	// So IsPure is usually true.
 	IsPure bool
-	// IsCommutative is true if the operation is commutative
+	// IsCommutative is true if the operation is commutative and associative for
+	// all operands: the optimizer uses it to regroup (c1 op x) op c2 to
+	// x op (c1 op c2). So it must not be set for operators like an equality
+	// check, which is commutative, but (a=b)=c differs from a=(b=c), or for
+	// operators with short evaluation.
 	IsCommutative bool
 }
 
